@@ -204,8 +204,26 @@ namespace via
       /// @param connection a weak_pointer to the connection that sent the
       /// error.
       void error_handler(const ASIO_ERROR_CODE& error,
-                         std::weak_ptr<connection_type> connection)
-      { error_callback_(error, connection); }
+                         std::weak_ptr<connection_type> ptr)
+      {
+        error_callback_(error, ptr);
+
+        // Note: a connection that failed to connect (e.g. a failed handshake)
+        // never sends a DISCONNECTED event, so forget it now.
+        if (std::shared_ptr<connection_type> connection = ptr.lock())
+        {
+          if (!connection->connected())
+          {
+#ifdef HTTP_THREAD_SAFE
+            connections_.erase(connection.get());
+#else
+            auto iter(connections_.find(connection));
+            if (iter != connections_.end())
+              connections_.erase(iter);
+#endif
+          }
+        }
+      }
 
       /// @fn start_accept
       /// Wait for connections.
